@@ -28,6 +28,7 @@ type Codes struct {
 	Controller      map[string]string          `json:"controller_kinds"`
 	SwitchKinds     map[string]string          `json:"switch_kinds"`
 	CtStateBits     map[string]int64           `json:"ct_state_bits"`
+	OxmExtra        map[string]int64           `json:"oxm_extra_widths"`
 	NatRangeBits    map[string]int64           `json:"nx_nat_range_bits"`
 	ParseKinds      map[string]string          `json:"parse_kinds"`
 	MultipartType   map[string]int64           `json:"ofp_multipart_type"`
